@@ -60,6 +60,8 @@ def build_registry(mods):
     reg.models[common.forall_range] = _models.q_forall
     reg.models[common.exists_range] = _models.q_exists
     reg.models[common.is_opaque] = _models.m_is_opaque
+    reg.models[common.sum_prefix] = _models.q_sum_prefix
+    reg.models[common.count_prefix] = _models.q_count_prefix
     reg.link()
     # loop specs keyed by (file, ast-qualname, ordinal)
     for (q, ordinal), ls in reg.loops.items():
